@@ -158,6 +158,8 @@ Proof.
     repeat match goal with E : sc_stream _ = _ |- _ => rewrite E end;
     try match goal with E : cr _ _ = _ |- _ => rewrite E end;
     repeat split; try assumption; try tauto; try congruence; try (intros; discriminate) ].
+  (* a message leaving the unmodelled mailbox of a library actor *)
+  all: eexists; (split; [reflexivity|]); exact R.
 Qed.
 
 Lemma R13_run tr s s' m :
